@@ -333,7 +333,12 @@ STMT_FORMS = [
      ["{b}('1', '2', '3', k='4', z='5')"]),
     ("def.default-reads", "def {b}(p={r}):\n    return 'f(' + p + ')'", ["{b}()"]),
     ("def.local-shadows", "def {b}():\n    {r} = 'inner'\n    return {r}", ["{b}()"]),
+    ("def.keyword-only-default-reads", "def {b}(*, k={r}):\n    return 'f(' + k + ')'", ["{b}()"]),
+    ("def.decorator-reads", "@ident\ndef {b}():\n    return 'f(' + {r} + ')'", ["{b}()"]),
+    ("def.annotation-reads", "def {b}(p: {r} = 'd') -> {r}:\n    return 'f(' + p + ')'", ["{b}()", "sh({b}.__annotations__['p'])"]),
+    ("def.own-locals-stay-inside", "def {b}():\n    zq = {r}\n    return 'f(' + zq + ')'", ["{b}()", "sh(zq)"]),
     ("lambda", "{b} = lambda p: 'l(' + p + {r} + ')'", ["{b}('1')"]),
+    ("lambda.default-reads", "{b} = lambda p={r}: 'l(' + p + ')'", ["{b}()"]),
     ("lambda.star-parameters", "{b} = lambda *va, **kw: 'l(' + ''.join(va) + ''.join(sorted(kw)) + {r} + ')'", ["{b}('1', z='2')"]),
     ("comprehension.list", "zq = [{b} for {b} in [{r}]]", ["sh(zq)"]),
     ("comprehension.set", "zq = sorted({{{b} for {b} in [{r}]}})", ["sh(zq)"]),
@@ -343,6 +348,8 @@ STMT_FORMS = [
     ("class", "class {b}:\n    pass\nzq = {r}", ["sh(zq)"]),
     ("class.body-reads", "class {b}:\n    v = {r}", ["sh({b}.v)"]),
     ("class.base-reads", "class {b}({r}base):\n    pass", ["sh({b}.__mro__[1])"]),
+    ("match.capture", "match [{r}]:\n    case [{b}]:\n        pass", []),
+    ("match.as-star-mapping", "match {{'k': [{r}, 1]}}:\n    case {{'k': [{b}, *zq], **zp}}:\n        pass", ["sh(zq)", "sh(sorted(zp))"]),
     ("del", "{b} = {r}\ndel {b}", []),
     ("global", "global {b}\n{b} = {r}", []),
 ]
@@ -385,7 +392,7 @@ def build_stmt(al, p):
         raise ValueError(place)
     defs.append(["def", "wit", "", [T("<"), E("sh(context.get(%r, 'U'))" % b), T(";"), E("sorted(context.kwargs)"), T(">")]])
     body += [T("|"), E("self.wit()")]
-    ctx = {"sh": "@helper:show", "cm": "@helper:cm"}
+    ctx = {"sh": "@helper:show", "cm": "@helper:cm", "ident": "@helper:ident"}
     if label == "class.base-reads":
         ctx[r + "base"] = "@helper:Base"
         if p["ctx"] == "none":
